@@ -346,7 +346,9 @@ func annTxn(t *coin.Transaction, hdr *coin.BlockHeader, head *coin.BlockHeader) 
 	}
 	fmt.Fprintf(&sb, "out=%s", strings.Join(outs, ","))
 	if head != nil {
-		cu := coin.CreateUnspents(*head, *t)
+		// ids under a genesis-like head (BkSeq 0): what the node's collision check uses while its
+		// head is the genesis block; with any later head the check uses the own-hash ids (`out`)
+		cu := coin.CreateUnspents(coin.BlockHeader{}, *t)
 		cid := make([]string, len(cu))
 		for i := range cu {
 			cid[i] = sh(cu[i].Hash())
@@ -557,3 +559,5 @@ func digest(n *node) string {
 	}
 	return "D" + strings.Join(parts, ";")
 }
+
+func signHash(h cipher.SHA256, k cipher.SecKey) cipher.Sig { return cipher.MustSignHash(h, k) }
